@@ -322,6 +322,73 @@ func runMemMode(seed int64, n int, sub string, tr *transcript) {
 	for _, spec := range specs {
 		memOne(r, n, slack, spec, tr)
 	}
+	if sub == "" {
+		memDroppedTree(tr, slack)
+	}
+}
+
+// memDroppedTree: interior nodes released by one tree are reused by others; whatever they pointed to in their
+// former life must not stay reachable through them.
+func memDroppedTree(tr *transcript, slack int64) {
+	defer func() {
+		if rec := recover(); rec != nil {
+			tr.emit("assert 0 no-panic-during-memory-run/dropped-tree", "PANIC:"+strings.ReplaceAll(fmt.Sprint(rec), " ", "_"))
+		}
+	}()
+	base := liveHeap()
+	old := debug.SetGCPercent(-1) // keep the pool's contents between release and reuse
+	big := art.NewAlphaSortedTree[string, int]()
+	for i := 0; i < 60000; i++ {
+		big.Insert(fmt.Sprintf("z%06d", i), i)
+	}
+	var small []art.Tree[string, int]
+	for round := 0; round < 64; round++ {
+		// a node4 at the root with the big subtree in its last slot, then collapsed (released to the pool)
+		for _, k := range []string{"a", "b", "c"} {
+			big.Insert(k, 1)
+		}
+		for _, k := range []string{"a", "b", "c"} {
+			big.Delete(k)
+		}
+		// … and picked up by short-lived-looking but long-lived small trees
+		for j := 0; j < 4; j++ {
+			t := art.NewAlphaSortedTree[string, int]()
+			t.Insert("ka", 1)
+			t.Insert("kb", 2)
+			small = append(small, t)
+		}
+	}
+	// the same through the other classes: grow and shrink a wide node so that 16/48/256 images are recycled
+	for round := 0; round < 8; round++ {
+		for b := 1; b < 120; b++ {
+			big.Insert("y"+string(rune(b))+"tail", b)
+		}
+		for b := 1; b < 120; b++ {
+			big.Delete("y" + string(rune(b)) + "tail")
+		}
+		for j := 0; j < 2; j++ {
+			t := art.NewAlphaSortedTree[string, int]()
+			for b := 1; b < 60; b++ {
+				t.Insert("q"+string(rune(b)), b)
+			}
+			for b := 1; b < 58; b++ {
+				t.Delete("q" + string(rune(b)))
+			}
+			small = append(small, t)
+		}
+	}
+	big = nil
+	debug.SetGCPercent(old)
+	after := liveHeap()
+	grew := int64(after) - int64(base)
+	name := "assert 0 dropped-tree-is-collectable-despite-recycled-nodes"
+	if grew > slack+int64(len(small))*2048 {
+		tr.emit(name, fmt.Sprintf("retained=%dB(with_%d_small_trees_alive)", grew, len(small)))
+	} else {
+		tr.emit(name, "ok")
+	}
+	runtime.KeepAlive(small)
+	tr.stats["mem-dropped-tree-retained-bytes"] = int(grew)
 }
 
 func memOne(r *rand.Rand, n int, slack int64, spec string, tr *transcript) {
@@ -589,6 +656,33 @@ func gcCheck[K any, V any](tr *transcript, name string, t art.Tree[K, V], keys [
 		if !reflect.DeepEqual(got, want) && fail == "" {
 			fail = fmt.Sprintf("%s:All()-differs(len=%d,want=%d)", phase, len(got), len(want))
 		}
+		// the other access paths over the same structure (they cast and slice node memory too)
+		if len(keys) > 1 && !strings.HasPrefix(name, "coll") {
+			for _, pair := range [][2]int{{0, len(keys) - 1}, {len(keys) / 2, len(keys) / 3}, {1, 1}} {
+				n := 0
+				for k, v := range t.Range(keys[pair[0]], keys[pair[1]]) {
+					if w, ok := want[keyLit(k)]; (!ok || !reflect.DeepEqual(v, w)) && fail == "" {
+						fail = fmt.Sprintf("%s:Range-yields-%s", phase, keyLit(k))
+					}
+					n++
+				}
+			}
+		}
+		if k, v, ok := t.Minimum(); ok {
+			if w, present := want[keyLit(k)]; (!present || !reflect.DeepEqual(v, w)) && fail == "" {
+				fail = fmt.Sprintf("%s:Minimum", phase)
+			}
+		}
+		if k, v, ok := t.Maximum(); ok {
+			if w, present := want[keyLit(k)]; (!present || !reflect.DeepEqual(v, w)) && fail == "" {
+				fail = fmt.Sprintf("%s:Maximum", phase)
+			}
+		}
+		for k, v := range t.TopK(3) {
+			if w, present := want[keyLit(k)]; (!present || !reflect.DeepEqual(v, w)) && fail == "" {
+				fail = fmt.Sprintf("%s:TopK", phase)
+			}
+		}
 		for _, k := range keys {
 			v, ok := t.Search(k)
 			w, present := want[keyLit(k)]
@@ -647,6 +741,13 @@ func gcForValue[V any](tr *transcript, vname string, mk func(i int) V, r *rand.R
 		var keys []string
 		seen := map[string]bool{}
 		us := alphaUniverses()
+		// two families below very long shared runs (compressed paths far beyond the inline limit and beyond
+		// the size of the node that records them)
+		for i := 0; i < 24; i++ {
+			k := strings.Repeat("L", 140+300*(i%2)) + string(rune('a'+i%5)) + strings.Repeat("m", i%3) + strconv.Itoa(i)
+			seen[k] = true
+			keys = append(keys, k)
+		}
 		for len(keys) < n {
 			k := string(unhex(pick(r, us).next(r)))
 			if !seen[k] && !strings.Contains(k, "\x00") {
